@@ -36,6 +36,7 @@ int self();                                // logical thread id (0 = main), -1 o
 long long nowNs();                         // virtual clock
 const Stats& stats();
 bool active();
+void failNextThreadCreations(int n);   // fault injection: the next n pthread_create calls of logical threads fail with EAGAIN
 bool blockOn(const void* key, long long timeoutNs);   // for interposed blocking I/O: false = timed out
 void wakeAll(const void* key);
 // observation hooks for harness invariants (called while holding the baton)
